@@ -1,13 +1,16 @@
 """C13 — the value at a point may not depend on how the request is written down (real code)"""
 from obligations import obl
-from harness import o_c06
+from harness import o_c06, o_burn
 
 PROP = dict(
     groups=[],
-    obligations=[obl('C13.request_forms', oracle=o_c06.batch_for('kenamond', 'dsd'))],
+    obligations=[obl('C13.request_forms', oracle=o_c06.batch_for('kenamond', 'dsd')),
+                 obl('C13.reparameterised_instance', oracle=o_burn.reparam)],
     corr_models=[],
     scope='The theorems of this property are statements about points; the burn-time solvers (Kenamond 1-3, DSD) are called here with the same points in other '
           'forms (shuffled, reversed, inside another batch, duplicated, alone, as an integer array, through one array object that is '
           'updated in place between two calls, on a used object): the values must agree, otherwise the property does not hold at the '
-          'points as the user wrote them.  Oracle only (the point-wise model `call f pts` is C05/C06).',
+          'points as the user wrote them.  Also (seeded C13-10): an instance of Kenamond 1, Kenamond 3 or the DSD cylinder whose public parameter attributes were '
+          'set to another admissible parameter set must return what a fresh instance of that set returns (the solvers read their attributes at call time; '
+          'a value remembered from construction yields burn times earlier than t_d and a jump at the interface).  Oracle only (the point-wise model `call f pts` is C05/C06).',
 )
